@@ -151,7 +151,8 @@ func Preset(prop string, adversarial bool, r *scen.Rand) *Params {
 		p.Counts = []int{1, 2, 3}
 		p.RunP = 0.4
 		p.TasksP = 0.2       // registrations made by parallel tests count as well
-		p.PreCorruptP = 0.06 // a damaged neighbour file must not cost an addressed entry of another file
+		p.PreCorruptP = 0.12 // a damaged neighbour file must not cost an addressed entry of another file
+		p.InvalidP = 0.06    // a call that fails before anything is stored still counts as an execution of its test
 		p.CleanP = 1
 		p.SortP = 0.4
 		p.PreFilesP = 0.4
